@@ -894,6 +894,9 @@ func TestReplay(t *testing.T) {
 		"TestMySQLSessionLogs": func(raw json.RawMessage) hx.Vs {
 			return decode(raw, func(c SessCase) hx.Vs { vs, _ := CheckMySession(c); return vs })
 		},
+		"TestSessionLogsMySQL": func(raw json.RawMessage) hx.Vs {
+			return decode(raw, func(c MyLogCase) hx.Vs { vs, _ := CheckMyLogSession(c); return vs })
+		},
 	})
 }
 
